@@ -5,6 +5,8 @@ package c02
 
 import (
 	"fmt"
+	"math/big"
+	"strings"
 	"testing"
 
 	"github.com/cockroachdb/apd/v3"
@@ -12,14 +14,27 @@ import (
 	"verif/harness/arith"
 	"verif/harness/core"
 	"verif/harness/gen"
+	"verif/harness/ref"
 )
 
-var ops = []string{"add", "sub", "mul", "quo", "quointeger", "rem", "round", "quantize", "rtie", "reduce", "sqrt", "quo", "mul"}
+var ops = []string{"add", "sub", "mul", "quo", "quointeger", "rem", "round", "quantize", "rtie", "reduce", "sqrt", "quo", "mul", "pow"}
 
 var base = arith.Gen(ops, 400, false)
 
+// the composite functions: no exact reference here (C11, C12 judge their values), but the
+// implications between the flags of one Condition hold for every operation
+var composite = arith.Gen([]string{"exp", "ln", "log10", "cbrt", "pow", "sqrt"}, 30, false)
+
 func genCase(t *rapid.T) arith.Case {
+	if gen.Pick(t, 12, "composite") == 1 {
+		c := composite(t)
+		c.Note = "composite"
+		return c
+	}
 	c := base(t)
+	if c.Op == "pow" {
+		return genPow(t, c)
+	}
 	switch c.Op {
 	case "quo", "quointeger", "rem":
 		if gen.Pick(t, 25, "divzero") == 0 {
@@ -55,6 +70,134 @@ func genCase(t *rapid.T) arith.Case {
 	return c
 }
 
+// genPow: integer powers (|n| <= 64), the one family of Pow whose exact result is a
+// rational that can be written down: x**n for n > 0, 1/x**|n| for n < 0.
+func genPow(t *rapid.T, c arith.Case) arith.Case {
+	if c.Ctx.P > 60 {
+		c.Ctx.P = c.Ctx.P%60 + 1
+	}
+	p := int(c.Ctx.P)
+	switch gen.Pick(t, 4, "pxk") {
+	case 0: // 1 +/- m*10^-k: squares and cubes whose extra digits sit far to the right
+		k := rapid.IntRange(1, 2*p+3).Draw(t, "pk")
+		m := gen.Digits(t, 3, "pm")
+		if len(m) > k {
+			m = m[:k]
+		}
+		one := new(big.Int).Exp(big.NewInt(10), big.NewInt(int64(k)), nil)
+		mv, _ := new(big.Int).SetString(m, 10)
+		if rapid.Bool().Draw(t, "pminus") {
+			one.Sub(one, mv)
+		} else {
+			one.Add(one, mv)
+		}
+		c.X = core.Dec{Coeff: one.String(), Exp: int32(-k)}
+	case 1: // short coefficients: exact results that fit
+		c.X = core.Dec{Coeff: gen.Digits(t, 4, "pshort"), Exp: int32(rapid.IntRange(-6, 6).Draw(t, "pse"))}
+	default:
+		c.X = gen.LogArg(t, c.Ctx, 6, "x")
+	}
+	if c.X.IsZero() {
+		c.X.Coeff = "3"
+	}
+	c.X.Neg = gen.Pick(t, 4, "pxneg") == 0
+	n := rapid.IntRange(1, 64).Draw(t, "pn")
+	if gen.Pick(t, 2, "pnsmall") == 0 {
+		n = rapid.IntRange(1, 5).Draw(t, "pns")
+	}
+	z := gen.Pick(t, 3, "pnz") // integer written with fraction zeros
+	c.Y = core.Dec{Coeff: fmt.Sprint(n) + strings.Repeat("0", z), Exp: int32(-z), Neg: gen.Pick(t, 4, "pnneg") == 0}
+	return c
+}
+
+// checkPow judges the value-determined flags of an integer power against the exact result
+// and the value actually returned (Pow is only accurate to an ulp, so the rounded value is
+// not prescribed here): Inexact iff the returned value differs from the exact one;
+// Subnormal iff the exact result is below 10^MinExponent; Underflow iff both; Overflow
+// whenever the exact result is at least 10^(MaxExponent+1) and never when it is below
+// 10^MaxExponent.
+func checkPow(c arith.Case, o arith.Out, st *core.Stats) error {
+	if c.X.Form != 0 || c.Y.Form != 0 || c.X.IsZero() || c.Y.IsZero() || c.Ctx.P == 0 {
+		return nil
+	}
+	yv := c.Y.Big()
+	if c.Y.Exp < 0 {
+		q, r := new(big.Int).QuoRem(yv, ref.Pow10(int64(-c.Y.Exp)), new(big.Int))
+		if r.Sign() != 0 {
+			return nil
+		}
+		yv = q
+	} else {
+		yv.Mul(yv, ref.Pow10(int64(c.Y.Exp)))
+	}
+	if yv.BitLen() > 7 {
+		return nil
+	}
+	n := yv.Int64()
+	pw := new(big.Int).Exp(c.X.Big(), big.NewInt(n), nil)
+	ex := ref.Exact{Neg: c.X.Neg && n%2 == 1, Num: pw, Den: big.NewInt(1), Exp: int64(c.X.Exp) * n}
+	if c.Y.Neg {
+		ex = ref.Exact{Neg: ex.Neg, Num: big.NewInt(1), Den: pw, Exp: -ex.Exp}
+	}
+	adj := ref.AdjExp(ex)
+	if adj > gen.Limit-2000 || adj < -gen.Limit+2000 {
+		st.Class("limit-class")
+		return nil
+	}
+	if o.Err != nil {
+		return fmt.Errorf("%v: unexpected error %v (flags %s) with an empty trap set", c, o.Err, core.FlagStr(o.Res))
+	}
+	label := "pow:positive-integer"
+	if c.Y.Neg {
+		label = "pow:negative-integer"
+	}
+	st.NonTrivial(label)
+	desc := fmt.Sprintf("%v: result %s flags %s, exact value %v", c, core.Show(o.D), core.FlagStr(o.Res), ex)
+	if o.D.Form == apd.NaN {
+		return fmt.Errorf("%s: NaN", desc)
+	}
+	// returned == exact ?  coefficient * 10^exp * Den == Num * 10^Exp, signs equal
+	same := false
+	if o.D.Form == apd.Finite {
+		l := new(big.Int).Mul(o.D.Coeff.MathBigInt(), ex.Den)
+		r := new(big.Int).Set(ex.Num)
+		if d := int64(o.D.Exponent) - ex.Exp; d >= 0 {
+			l.Mul(l, ref.Pow10(d))
+		} else {
+			r.Mul(r, ref.Pow10(-d))
+		}
+		same = l.Cmp(r) == 0 && o.D.Negative == ex.Neg
+	}
+	if same {
+		st.Class("pow:returned-exactly")
+	}
+	if same && o.Res.Inexact() && c.Y.Neg && st.Tolerate("D38") {
+		// known finding: spurious Inexact when x**|y| exceeds the working precision but 1/x**|y| fits
+	} else if same == o.Res.Inexact() {
+		return fmt.Errorf("%s: Inexact=%v but the returned value %s the exact one", desc, o.Res.Inexact(), map[bool]string{true: "equals", false: "differs from"}[same])
+	}
+	sub := adj < int64(c.Ctx.Emin)
+	if sub {
+		st.Class("pow:exact-result-subnormal")
+	}
+	if sub != o.Res.Subnormal() {
+		return fmt.Errorf("%s: Subnormal=%v but the exact result has adjusted exponent %d, MinExponent %d", desc, o.Res.Subnormal(), adj, c.Ctx.Emin)
+	}
+	if o.Res.Underflow() != (sub && o.Res.Inexact()) {
+		return fmt.Errorf("%s: Underflow=%v with Subnormal=%v Inexact=%v", desc, o.Res.Underflow(), sub, o.Res.Inexact())
+	}
+	if adj > int64(c.Ctx.Emax) && !o.Res.Overflow() {
+		return fmt.Errorf("%s: the exact result is above the range but Overflow is not raised", desc)
+	}
+	if adj < int64(c.Ctx.Emax) && o.Res.Overflow() {
+		return fmt.Errorf("%s: Overflow raised but the exact result is below 10^MaxExponent", desc)
+	}
+	if o.Res&(apd.DivisionByZero|apd.DivisionUndefined|apd.DivisionImpossible|apd.InvalidOperation) != 0 {
+		return fmt.Errorf("%s: division/invalid condition on a defined power", desc)
+	}
+	return nil
+}
+
 func isNaN(d core.Dec) bool { return d.Form >= 2 }
 
 const valueMask = apd.Inexact | apd.Subnormal | apd.Underflow | apd.Overflow | apd.DivisionByZero |
@@ -78,6 +221,16 @@ func check(c arith.Case, st *core.Stats) error {
 	}
 	if o.Err == nil && o.D.Form == apd.Finite && o.Res.Inexact() && !o.Res.Rounded() {
 		return fmt.Errorf("%v: finite result %s with Inexact but not Rounded (flags %s)", c, core.Show(o.D), core.FlagStr(o.Res))
+	}
+	// (Quantize and RoundToIntegral* never raise Underflow, by specification)
+	if o.Err == nil && c.Op != "quantize" && c.Op != "rtie" && c.Op != "rtiv" && o.Res.Underflow() != (o.Res.Subnormal() && o.Res.Inexact()) {
+		return fmt.Errorf("%v: result %s flags %s: Underflow must be raised exactly when Subnormal and Inexact are", c, core.Show(o.D), core.FlagStr(o.Res))
+	}
+	if c.Note == "composite" {
+		if o.Err == nil && o.Res&(apd.Subnormal|apd.Overflow) != 0 {
+			st.NonTrivial("composite:" + c.Op + ":" + core.FlagStr(o.Res&(apd.Subnormal|apd.Underflow|apd.Overflow|apd.Inexact)))
+		}
+		return nil
 	}
 	// the flags are a function of the operands' values only: they must not depend on
 	// whether the destination is a fresh object or one of the operands
@@ -115,6 +268,9 @@ func check(c arith.Case, st *core.Stats) error {
 			return fmt.Errorf("%v: got %s flags %s err=%v; an infinite operand is exact: expected the infinity and no conditions", c, core.Show(o.D), core.FlagStr(o.Res), o.Err)
 		}
 		return nil
+	}
+	if c.Op == "pow" {
+		return checkPow(c, o, st)
 	}
 	if !e.Defined {
 		st.Class("undefined-by-reference")
